@@ -206,28 +206,39 @@ class Sink:
         self.lines, self.handlers = [], []
 
 
+def sample(res, x):
+    """one or two samples per function, so that every function shows up in the evidence"""
+    if sum(1 for y in res.samples if y.get('fn') == x['fn']) < (1 if x['fn'] in ('PMT', 'PV', 'SLN') else 2):
+        res.samples.append(x)
+
+
+def real_fields(real):
+    """the two trailing request fields: the real result as an exact rational (or -) and the tolerance"""
+    rq = num_of(real)
+    return [w_frac(rq) if rq is not None else '-', w_frac(TOL)]
+
+
 def judge_value(res, what, inp, real, d, line, in_domain=True, nontrivial=True):
-    """real (wire) against spec (exact) within tolerance; then against the model (drift)."""
+    """real (wire) against spec within tolerance (decided exactly by the driver: cmp); then against the
+    model (cmpi; drift)."""
     res.evaluations += 1
     res.count(inp['fn'])
     spec, impl = d.get('spec', '-'), d.get('impl')
-    gross = num_of(d['gross']) if 'gross' in d else Fraction(0)
     rq = num_of(real)
-    res.count('outcome:' + ('value' if rq is not None else real[:2]))
+    res.count('outcome:' + ('value' if rq is not None else real[:6]))
     if nontrivial:
         res.nontrivial.add(line)
-    res.sample({'fn': inp['fn'], 'input': inp, 'real': float(rq) if rq is not None else real,
-                'spec': float(num_of(spec)) if num_of(spec) is not None else spec})
-    if spec != '-' and in_domain:
-        sq = num_of(spec)
-        if rq is None or not close(rq, sq, gross):
-            res.violations.append({'what': what, 'input': inp, 'expected': f'{float(sq)!r} (exact {spec})',
-                                   'got': float(rq) if rq is not None else real})
-            return False
-    iq = num_of(impl)
-    if iq is not None:
-        if rq is None or not close(rq, iq, gross):
-            res.drift.append({'fn': inp['fn'], 'input': inp, 'impl_model': impl, 'real': real})
+    sq = num_of(spec)
+    sample(res, {'fn': inp['fn'], 'input': inp, 'real': float(rq) if rq is not None else real,
+                 'spec': float(sq) if sq is not None else spec})
+    if spec != '-' and in_domain and d['cmp'] != 'ok':
+        res.violations.append({'what': what, 'input': inp, 'expected': float(sq),
+                               'got': float(rq) if rq is not None else real})
+        return False
+    if num_of(impl) is not None:
+        if d['cmpi'] != 'ok':
+            res.drift.append({'fn': inp['fn'], 'input': inp, 'impl_model': float(num_of(impl)),
+                              'real': float(rq) if rq is not None else real})
     else:
         same = (impl == real) or (impl == 'N:nonfinite' and real in ('N:nan', 'N:+inf', 'N:-inf'))
         if not same:
@@ -252,7 +263,7 @@ def sec_npv(ctx, res, sink, F, n):
         else:
             real = call_real(F['NPV'], r, [[v] for v in vals])
         inp = {'fn': 'NPV', 'rate': r, 'values': vals, 'shape': ['args', 'row', 'column'][shape]}
-        sink.add(['NPV', w_frac(fr(r)), wl(vals)],
+        sink.add(['NPV', w_frac(fr(r)), wl(vals)] + real_fields(real),
                  lambda d, line, inp=inp, real=real: judge_value(
                      res, 'NPV differs from sum c_i/(1+r)^i (i from 1)', inp, real, d, line,
                      nontrivial=len(inp['values']) > 1))
@@ -324,7 +335,7 @@ def annuity_case(res, sink, F, fn, r, n, a, fv, t, how='grid'):
     what = (f'{fn} differs from the solution of the annuity equation '
             '(balance after nper periods + fv = 0)')
     in_dom = not (fn == 'PMT' and t != 0)
-    sink.add([fn, w_frac(fr(r)), w_frac(fr(n)), w_frac(fr(a)), w_frac(fr(fv)), w_frac(fr(t))],
+    sink.add([fn, w_frac(fr(r)), w_frac(fr(n)), w_frac(fr(a)), w_frac(fr(fv)), w_frac(fr(t))] + real_fields(real),
              lambda d, line: judge_value(res, what, inp, real, d, line, in_domain=in_dom,
                                          nontrivial=(a != 0 or fv != 0)))
     res.count(f'{fn}:{how}')
@@ -433,14 +444,10 @@ def sec_sln(ctx, res, sink, F, n):
         real = call_real(F['SLN'], cost, salv, life)
         inp = {'fn': 'SLN', 'cost': cost, 'salvage': salv, 'life': life}
 
-        def h(d, line, inp=inp, real=real):
-            # the quotient of two doubles: one rounding of the difference, one of the division
-            d = dict(d)
-            sq = num_of(d['spec'])
-            d['gross'] = 'F:' + w_frac((abs(fr(inp['cost'])) + abs(fr(inp['salvage']))) / fr(inp['life']))
-            judge_value(res, 'SLN differs from (cost-salvage)/life', inp, real, d, line,
-                        nontrivial=sq != 0)
-        sink.add(['SLN', w_frac(fr(cost)), w_frac(fr(salv)), w_frac(fr(life))], h)
+        sink.add(['SLN', w_frac(fr(cost)), w_frac(fr(salv)), w_frac(fr(life))] + real_fields(real),
+                 lambda d, line, inp=inp, real=real: judge_value(
+                     res, 'SLN differs from (cost-salvage)/life', inp, real, d, line,
+                     nontrivial=inp['cost'] != inp['salvage']))
 
 
 def as_range(vals, shape):
@@ -469,7 +476,7 @@ def sec_xnpv(ctx, res, sink, F, n):
         offs = [Fraction(d - ds[0], 365) for d in ds]
         ws = pow_weights(1 + fr(r), offs)
         inp = {'fn': 'XNPV', 'rate': r, 'values': vals, 'dates': ds, 'as_datetime': use_dt}
-        sink.add(['XNPV', w_frac(fr(r)), wl(vals), wl(ds), wl(ws)],
+        sink.add(['XNPV', w_frac(fr(r)), wl(vals), wl(ds), wl(ws)] + real_fields(real),
                  lambda d, line, inp=inp, real=real: judge_value(
                      res, 'XNPV differs from sum v_i/(1+r)^((d_i-d_1)/365)', inp, real, d, line,
                      nontrivial=len(inp['values']) > 1))
@@ -524,7 +531,7 @@ def irr_case(res, sink, F, vals, how='random'):
         res.evaluations += 1
         res.count('IRR')
         res.nontrivial.add(line)
-        res.sample({'fn': 'IRR', 'input': inp, 'real': float(rq), 'certificate': dict(d)})
+        sample(res, {'fn': 'IRR', 'input': inp, 'real': float(rq), 'certificate': dict(d)})
         if d.get('dom') != '1':
             raise RuntimeError(f'generator produced flows outside the domain: {vals}')
         if not (d['lo'] == '+' and d['hi'] == '-'):
@@ -637,7 +644,7 @@ def xirr_case(ctx, res, sink, F, vals, ds, guess=None, how='random'):
         res.evaluations += 1
         res.count('XIRR')
         res.nontrivial.add(line)
-        res.sample({'fn': 'XIRR', 'input': inp, 'real': float(rq), 'certificate': dict(d)})
+        sample(res, {'fn': 'XIRR', 'input': inp, 'real': float(rq), 'certificate': dict(d)})
         if d.get('dom') != '1':
             raise RuntimeError(f'generator produced flows outside the domain: {vals}')
         if not (d['lo'] == '+' and d['hi'] == '-'):
@@ -772,21 +779,21 @@ def replay_case(ctx, res, sink, F, inp):
     fn = inp.get('fn')
     if fn == 'NPV':
         real = call_real(F['NPV'], inp['rate'], *inp['values'])
-        sink.add(['NPV', w_frac(fr(inp['rate'])), wl(inp['values'])],
+        sink.add(['NPV', w_frac(fr(inp['rate'])), wl(inp['values'])] + real_fields(real),
                  lambda d, line: judge_value(res, 'NPV differs from sum c_i/(1+r)^i (i from 1)', inp, real, d, line))
     elif fn in ('PMT', 'PV'):
         a = inp.get('pv', inp.get('pmt', inp.get('a')))
         annuity_case(res, sink, F, fn, inp['rate'], inp['nper'], a, inp['fv'], inp['type'], how='replay')
     elif fn == 'SLN':
         real = call_real(F['SLN'], inp['cost'], inp['salvage'], inp['life'])
-        sink.add(['SLN', w_frac(fr(inp['cost'])), w_frac(fr(inp['salvage'])), w_frac(fr(inp['life']))],
-                 lambda d, line: judge_value(res, 'SLN differs from (cost-salvage)/life', inp, real,
-                                             dict(d, gross=d['spec']), line))
+        sink.add(['SLN', w_frac(fr(inp['cost'])), w_frac(fr(inp['salvage'])), w_frac(fr(inp['life']))]
+                 + real_fields(real),
+                 lambda d, line: judge_value(res, 'SLN differs from (cost-salvage)/life', inp, real, d, line))
     elif fn == 'XNPV':
         vals, ds, r = inp['values'], inp['dates'], inp['rate']
         real = call_real(F['XNPV'], r, [vals], [ds])
         ws = pow_weights(1 + fr(r), [Fraction(d - ds[0], 365) for d in ds])
-        sink.add(['XNPV', w_frac(fr(r)), wl(vals), wl(ds), wl(ws)],
+        sink.add(['XNPV', w_frac(fr(r)), wl(vals), wl(ds), wl(ws)] + real_fields(real),
                  lambda d, line: judge_value(res, 'XNPV differs from sum v_i/(1+r)^((d_i-d_1)/365)', inp, real,
                                              d, line))
     elif fn == 'IRR':
